@@ -58,10 +58,19 @@ class CallMixin:
       raise Unsupported(f'attribute {name} on {v.cls}')
     if isinstance(v, VSuper):
       for b in v.cls_node.bases:
+        if isinstance(b, ast.Subscript):        # Generic[...] parametrisation of the base class
+          b = b.value
         bn = b.id if isinstance(b, ast.Name) else (b.attr if isinstance(b, ast.Attribute) else None)
         if bn:
+          if isinstance(b, ast.Attribute) and isinstance(b.value, ast.Name):
+            here = self.module_stack[-1] if self.module_stack else None
+            dotted = here.imports.get(b.value.id) if here is not None else None
+            if dotted:
+              self.world.module_by_dotted(dotted)        # make sure the defining module is loaded
           mod, cls, m = self.world.method(bn, name)
           if m is not None:
+            if world_mod.is_property(m):
+              return self.call_method(v.obj, mod, cls, m, [], {})
             return VFn(name, node=m, module=mod, cls=cls, bound=v.obj)
       raise Unsupported(f'super().{name}')
     if isinstance(v, VModule):
